@@ -59,32 +59,32 @@ theorem eq_of_eqvGen {β γ : Type} {r : β → β → Prop} (f : β → γ) (h 
 
 /-! ### the label-merging reachability primitive -/
 
-theorem mergeStep_apply (lab : Nat → Nat) (e : Nat × Nat) (v : Nat) :
-    mergeStep lab e v = if lab v = lab e.1 then lab e.2 else lab v := by
+theorem mergeStep_apply (lab : Labels) (e : Nat × Nat) (v : Nat) :
+    (mergeStep lab e).get v = if lab.get v = lab.get e.1 then lab.get e.2 else lab.get v := by
   simp [mergeStep]
 
 /-- after merging along `es`, two nodes carry the same label iff they are connected through
     label-equal nodes and the edges `es` -/
-theorem foldl_mergeStep_iff (es : List (Nat × Nat)) (lab : Nat → Nat) (u v : Nat) :
-    (es.foldl mergeStep lab) u = (es.foldl mergeStep lab) v ↔
-      EqvGen (fun a b => lab a = lab b ∨ (a, b) ∈ es) u v := by
+theorem foldl_mergeStep_iff (es : List (Nat × Nat)) (lab : Labels) (u v : Nat) :
+    (es.foldl mergeStep lab).get u = (es.foldl mergeStep lab).get v ↔
+      EqvGen (fun a b => lab.get a = lab.get b ∨ (a, b) ∈ es) u v := by
   induction es generalizing lab u v with
   | nil =>
     simp only [List.foldl_nil, List.not_mem_nil, or_false]
     constructor
     · intro h; exact EqvGen.rel _ _ h
-    · intro h; exact eq_of_eqvGen lab (fun _ _ h => h) h
+    · intro h; exact eq_of_eqvGen lab.get (fun _ _ h => h) h
   | cons e es ih =>
     rw [List.foldl_cons, ih]
     apply eqvGen_congr
     · rintro a b (h | h)
       · -- labels equal after the merge: connected before or through the new edge
         rw [mergeStep_apply, mergeStep_apply] at h
-        have hx : ∀ w, lab w = lab e.1 →
-            EqvGen (fun a b => lab a = lab b ∨ (a, b) ∈ e :: es) w e.2 := fun w hw =>
+        have hx : ∀ w, lab.get w = lab.get e.1 →
+            EqvGen (fun a b => lab.get a = lab.get b ∨ (a, b) ∈ e :: es) w e.2 := fun w hw =>
           EqvGen.trans _ _ _ (EqvGen.rel _ _ (Or.inl hw))
             (EqvGen.rel _ _ (Or.inr (by simp)))
-        by_cases ha : lab a = lab e.1 <;> by_cases hb : lab b = lab e.1
+        by_cases ha : lab.get a = lab.get e.1 <;> by_cases hb : lab.get b = lab.get e.1
         · exact EqvGen.trans _ _ _ (hx a ha) (EqvGen.symm _ _ (hx b hb))
         · simp only [ha, hb, if_true, if_false] at h
           exact EqvGen.trans _ _ _ (hx a ha) (EqvGen.rel _ _ (Or.inl h))
@@ -121,7 +121,7 @@ def Adj (n : Nat) (M : Nat → Nat → Bool) (a b : Nat) : Prop := a < n ∧ b <
 def Conn (n : Nat) (M : Nat → Nat → Bool) : Nat → Nat → Prop := EqvGen (Adj n M)
 
 theorem compLabels_eq_iff (n : Nat) (M : Nat → Nat → Bool) (u v : Nat) :
-    compLabels n M u = compLabels n M v ↔ Conn n M u v := by
+    (compLabels n M).get u = (compLabels n M).get v ↔ Conn n M u v := by
   unfold compLabels Conn
   rw [foldl_mergeStep_iff]
   apply eqvGen_congr
